@@ -111,7 +111,9 @@ class DecayChainViewer:
                 label = f'<<TABLE BORDER="0" CELLSPACING="0" BGCOLOR="{bgcolor}">'
             else:
                 label = f'<<TABLE BORDER="0" CELLSPACING="0" CELLPADDING="0" BGCOLOR="{bgcolor}"><TR>'
-            for i, n in enumerate(names):
+            # A decay mode without daughters still needs a (then empty) cell:
+            # Graphviz rejects a table row without any cell
+            for i, n in enumerate(names or [""]):
                 if add_tags:
                     label += f'<TR><TD BORDER="1" CELLPADDING="5" PORT="p{i}">{safe_html_name(n)}</TD></TR>'
                 else:
